@@ -1156,9 +1156,12 @@ class Elemwise(Blockwise):
         # Pad index to full length
         full_index = index + (slice(None),) * (len(out_ind) - len(index))
 
-        # Build sliced inputs
+        # Build sliced inputs.  ``where``/``out`` arrays broadcast against the
+        # inputs and are read block by block next to them, so they take the
+        # same slice.
+        extra_args = [a for a in (self.where, self.out) if isinstance(a, ArrayExpr)]
         new_args = []
-        for arg in self.elemwise_args:
+        for arg in list(self.elemwise_args) + extra_args:
             if is_scalar_for_elemwise(arg):
                 new_args.append(arg)
             else:
@@ -1203,12 +1206,18 @@ class Elemwise(Blockwise):
                 sliced_arg = new_collection(arg)[tuple(arg_slices)]
                 new_args.append(sliced_arg.expr)
 
+        new_where, new_out = self.where, self.out
+        if isinstance(new_out, ArrayExpr):
+            new_out = new_args.pop()
+        if isinstance(new_where, ArrayExpr):
+            new_where = new_args.pop()
+
         return Elemwise(
             self.op,
             self.operand("dtype"),
             self.operand("name"),
-            self.where,
-            self.out,
+            new_where,
+            new_out,
             self.operand("_user_kwargs"),
             *new_args,
         )
